@@ -69,6 +69,17 @@ def programs(tier, seed):
         ]
     )
     yield ("loop-extra-inputs", cyc, ints, False)
+    two = T.prog(
+        [
+            T.fn("la", ["xa"], ["xa"], behav={"py": "xa + 1"}),
+            T.route("ga", ["xa"], ["la", "END"], behav={"py": "'la' if xa < 2 else END"}),
+            T.fn("lb1", ["yb"], ["zb"], behav={"py": "yb + 1"}),
+            T.fn("lb2", ["zb"], ["yb"], behav={"py": "zb + 1"}),
+            T.route("gb", ["yb"], ["lb1", "END"], behav={"py": "'lb1' if yb < 4 else END"}),
+        ]
+    )
+    yield ("loop-two-independent", two, dict(ints, xa=0, yb=0, zb=0), False)
+    yield ("loop-two-independent-rev", T.prog(list(reversed(two["nodes"]))), dict(ints, xa=0, yb=0, zb=0), False)
     yield ("nested", T.nested_fanout(), e, True)
     yield ("nested2", T.nested_depth(2), e, True)
     inner = T.prog([T.fn("ib", ["x", "k"], ["y"], defaults={"k": ["dflt", "k"]}), T.fn("ic", ["y", "m"], ["z"])], name="inr", bind={"m": ["bound", "m"]})
@@ -144,14 +155,29 @@ def check_config(acc, family, prog, ints, is_dag, cfg, runner):
     def viol(sym, msg, **extra):
         acc.violation({"symptom": sym, "family": family.split("-")[0], **extra}, w, f"{family} {cfg}: {msg}", size=len(repr(prog)) + len(repr(cfg)))
 
+    def prerun(gg):
+        """Use the parent object first (same run-time select): nothing computed for it may survive into a derived graph."""
+        if not cfg["rsel"]:
+            return
+        try:
+            sp = gg.select(*cfg["rsel"]).inputs
+            ins = {r: _val(r, ints) for r in list(sp.required) + [q for v in list(sp.entrypoints.values())[:1] for q in v]}
+            execute(None, ins, runner="async" if is_async else "sync", h=H(), graph=gg, select=list(cfg["rsel"]), on_internal_override="ignore", max_iterations=60, error_handling="continue")
+        except Exception:  # noqa: BLE001 - the pre-run is only there to warm caches
+            pass
+
     try:
         g0 = build(p, h)
         g = g0
         if cfg["bind"]:
+            prerun(g)
             g = g.bind(**{k: canon(_val(k, ints)) for k in cfg["bind"]})
+            # bind then unbind must also give back a graph that validates like the original
         if cfg["entry"]:
+            prerun(g)
             g = g.with_entrypoint(*cfg["entry"])
         if cfg["select"]:
+            prerun(g)
             g = g.select(*cfg["select"])
         gspec = g.select(*cfg["rsel"]) if cfg["rsel"] else g
         spec = gspec.inputs
@@ -180,8 +206,20 @@ def check_config(acc, family, prog, ints, is_dag, cfg, runner):
                 viol("unbind-does-not-restore", f"bind({r}).unbind({r}) gives {_spec_view(gb.unbind(r).inputs)} instead of {_spec_view(spec)}")
         except Exception as e:  # noqa: BLE001
             viol("bind-of-required-rejected", f"bind({r}) raised {type(e).__name__}: {str(e)[:100]}")
-    # entry choices: one listed entry point per cyclic component, each in turn
     groups = _entry_groups(g, spec)
+    for b in sorted(set(spec.required) | set(spec.optional) | epp):
+        try:
+            sb = gspec.bind(**{b: canon(_val(b, ints))}).inputs
+        except Exception:  # noqa: BLE001
+            continue
+        removed = set(spec.entrypoints) - set(sb.entrypoints)
+        allowed = set()
+        for gr in groups:
+            if any(b in eps[e] for e in gr):
+                allowed |= set(gr)
+        if not removed <= allowed:
+            viol("bind-drops-unrelated-entry-points", f"bind({b}) removed the entry points {sorted(removed - allowed)} of a cycle that does not use {b}")
+    # entry choices: one listed entry point per cyclic component, each in turn
     multi = [gr for gr in groups if len(gr) > 1]
     if len(multi) > 1:
         acc.observations["two cyclic components with several entry points each (run(entrypoint=) names only one)"] += 1
@@ -283,7 +321,7 @@ def coverage_extra(acc, tier, seed):
 def replay(rep):
     acc = Acc()
     cfg = {k: (tuple(v) if isinstance(v, list) else v) for k, v in rep["cfg"].items()}
-    ints = {"count": 0, "x0": 0, "x1": 0, "x2": 0, "total": 100, "s": 0, "a": 0, "u": 1, "lim": 3}
+    ints = {"count": 0, "x0": 0, "x1": 0, "x2": 0, "total": 100, "s": 0, "a": 0, "u": 1, "lim": 3, "xa": 0, "yb": 0, "zb": 0}
     fam = rep["family"]
     check_config(acc, fam, rep["program"], ints if fam.startswith("loop") else {}, fam in ("dag", "nested", "nested2", "nested-bound-default", "signals", "shared-input-order"), cfg, rep["runner"])
     return [v["message"] for v in acc.violations.values()]
